@@ -7,6 +7,6 @@ from . import cfgfamily, cfgmachine
 
 
 def run(tier, seed):
-    out = cfgmachine.run_machine("C15", ["C15_Error"], [], tier, seed, focus="C15")
+    out = cfgmachine.run_machine("C15", ["C15_Error", "C15_DictItemError"], [], tier, seed, focus="C15")
     # and on the generated schema family (every schema shape: paths through nested schemas, lists of configurations)
-    return cfgmachine.merge(out, cfgfamily.run_family("C15", ["C15_Error"], [], tier, seed, focus="C15"))
+    return cfgmachine.merge(out, cfgfamily.run_family("C15", ["C15_Error", "C15_DictItemError"], [], tier, seed, focus="C15"))
